@@ -180,10 +180,91 @@ def concrete(n, vals):
 
 def replay(data):
     import bert_e.workflow.gitwaterflow as gwf
+    if data.get('scenario') == 'handle_pr':
+        from . import gitflow as GF
+        common.install_common_stubs(common.named_render)
+        bad, out = GF.replay_on_real_git(data)
+        return data['label'] in bad
     common.install_common_stubs()
     common.silence(gwf)
     pre, out, exp, asked = concrete(data['n'], data['vals'])
     return pre and out.split(':')[0] not in exp
+
+
+# ---------------------------------------------------------------------------
+# history clause: the complete handler on the symbolic repository
+def handler_configs(tier):
+    F = ['development/4.3', 'development/5.1']
+    A = ['development/4.3', 'development/5.1', 'development/10.0']
+    p1 = (1, 'feature/a', 'development/4.3')
+    cfgs = [dict(shape=F, pr=p1, mode='noqueue', no_octopus=True),
+            dict(shape=F, pr=p1, mode='queue', no_octopus=True),
+            dict(shape=F, pr=p1, mode='skip', no_octopus=True)]
+    if tier == 'thorough':
+        cfgs += [dict(shape=F, pr=p1, mode='noqueue', no_octopus=False),
+                 dict(shape=A, pr=p1, mode='noqueue', no_octopus=True),
+                 dict(shape=A, pr=p1, mode='queue', no_octopus=True)]
+    return cfgs
+
+
+def make_handler_harness(c):
+    from . import gitflow as GF
+
+    def h(ctx):
+        pr = GF.PR(*c['pr'])
+        refs = GF.handler_refs(c['shape'], pr, c['mode'])
+        repo, host, out = GF.scenario_handle_pr(
+            ctx, c['shape'], pr, len(refs) + 1, c['mode'],
+            lambda byp, host: [GF.mon_handler_builds(c['shape'], pr, byp, host)],
+            no_octopus=c['no_octopus'])
+        vio = []
+        for v in repo.violations:
+            d = GF.cex_data('handle_pr', c['shape'], [pr], v, mode=c['mode'], no_octopus=c['no_octopus'])
+            d['params']['bypass'] = bool(model_value(v.model, z3.Bool('bypass_build_status')))
+            vio.append(d)
+        return dict(out=out, vio=vio, nops=len(repo.remote_ops))
+    return h
+
+
+def handler_part(rep):
+    from . import gitflow as GF
+    import bert_e.workflow.gitwaterflow as gwf
+    common.install_common_stubs(common.named_render)
+    rep.stubs += GF.silence_all()
+    gwf.setup({})
+    rep.stubs += ['git binary -> symgit (closure model); `git log` -> empty: the history-mismatch '
+                  'check of update_integration_branches is cut', 'approvals: the PR is fully approved; '
+                  'Jira off; no integration pull requests']
+    rep.functions_encoded += ['gitwaterflow.handle_pull_request/_handle_pull_request (complete)',
+                              'integration.create/update_integration_branches, check_conflict, '
+                              'merge_integration_branches', 'gitwaterflow.check_in_sync', 'queueing.is_needed/'
+                              'add_to_queue/already_in_queue', 'branches.BranchCascade.build/validate']
+    cfgs = handler_configs(rep.tier)
+    acc = common.explore_configs(cfgs, make_handler_harness, split_depth=6, max_depth=3000)
+    by_sig = {}
+    for i, c in enumerate(cfgs):
+        results, st = acc[i]
+        rep.add_stats(st, 'whole handler, %s mode, %d targets%s' % (
+            c['mode'], len(c['shape']), ' no_octopus' if c['no_octopus'] else ''))
+        outs = set(r['out'] for _, r in results)
+        want = 'Queued' if c['mode'] == 'queue' else 'SuccessMessage'
+        if want not in outs:
+            rep.error('vacuity: whole-handler run (%s) never reached %s: %s' % (c['mode'], want, sorted(outs)))
+        for _, r in results:
+            for v in r['vio']:
+                by_sig.setdefault('%s [%s mode]' % (v['label'], c['mode']), []).append(v)
+    for sig, vs in sorted(by_sig.items()):
+        vs.sort(key=lambda v: (v['conflicts'] + v['differs'], not v['prefs_ok']))
+        rep_ok = None
+        for v in vs[:6]:
+            if v['conflicts'] or v['differs']:
+                continue
+            bad, out = GF.replay_on_real_git(v)
+            if v['label'] in bad or (v['label'].startswith('C06 merged although') and out == 'SuccessMessage'):
+                rep_ok = v
+                break
+        v = rep_ok or vs[0]
+        rep.cexs.append(Cex('C06', sig, v, rep_ok is not None, '%s (%d symbolic paths)' % (sig, len(vs))))
 
 
 def _one(arg):
@@ -209,8 +290,7 @@ def check(rep):
     rep.bounds = dict(integration_branches='1..%d' % maxn, statuses=ST)
     rep.outside_claim += [
         'which of BuildNotStarted / BuildInProgress is raised (both silent)',
-        'history clause (status reported on a superseded tip): decided in the '
-        'symgit runs of C01/C03 where every merge creates a fresh commit']
+        'the history-mismatch check of update_integration_branches (needs git log)']
     outs = common.pmap(_one, [(n, False) for n in range(1, maxn + 1)] +
                        [(n, True) for n in (1, 2)])
     classes = set()
@@ -242,3 +322,4 @@ def check(rep):
         rep.error('vacuity: outcome classes reached = %s' % sorted(classes))
     if not twin_refuted:
         rep.error('reachability twin not refuted')
+    handler_part(rep)
